@@ -1,10 +1,277 @@
-(* C08 - property theorems (statements only; proofs are in C08/*Proofs.v). *)
-From Coq Require Import ZArith List Reals.
-From LibaV Require Import C08.NumOps C08.FactorDefs C08.Instances C08.Base C08.DetProofs.
+(* C08 - LU, LDL^T and Cholesky factorisations reconstruct, solve and fail correctly.
+
+   Every theorem below is about the Gallina model coq/C08/FactorDefs.v of src/linalg_plu.c,
+   src/linalg_ldl.c, src/linalg_llt.c instantiated with the real numbers (R_ops tiny, tiny =
+   A_REAL_MIN = any positive real), for EVERY order n and EVERY input array of n*n reals.  The
+   same Gallina term, instantiated with IEEE binary64, is compared bit for bit with the compiled
+   C on every run of checks/C08.py.
+   Reading aids (defined in coq/C08/Base.v, PluTheorems.v, LdlLltTheorems.v, PermProofs.v):
+     mg n M r c      = cell (r,c) of the flat row-major array M           rsum f k = sum_{i<k} f i
+     mmul n X Y r c  = (X Y)(r,c)                                         rprod f k = prod_{i<k} f i
+     Lf m / Uf m     = unit lower / upper triangle of the in-place storage m
+     Ltf m           = lower triangle with diagonal (Cholesky factor)
+     symc a          = the lower triangle of a completed symmetrically (all that LDL/LLT read)
+     perm_sign p     = (-1)^(number of inversions of p), the parity of the permutation p
+     "= Some ..."    = the modelled code terminated without any out-of-bounds access
+     return code 0   = A_SUCCESS, 1 = A_FAILURE.
+
+   FULL PROPERTY vs WHAT IS PROVED.  The property asks that the factors multiply back to the
+   input, and that solve / inverse / determinant satisfy their residual bounds, "within the
+   standard componentwise rounding bound" in floating point.  What is proved here is the
+   exact-arithmetic core (residual exactly 0 over the reals): these theorems carry the suffix
+   _partial.  Missing from them: the floating-point error analysis, i.e.
+       |P A - L U| <= gamma_n |L||U|,   |b - A x| <= gamma_3n |P^T||L||U||x|,  etc.
+   (gamma_k = k u / (1 - k u), u = 2^-53) for the binary64 instance.  Those bounds are MEASURED on
+   every run by the exact-rational oracle harness/C08/oracle.py on the C output, not proved.
+   The shape and failure clauses (permutation, parity = sign, |multipliers| <= 1, pivots >= tiny,
+   positive Cholesky diagonal, failure on exactly singular / non-positive inputs, consistency of
+   det / lndet / sgndet) are exact statements and are proved in full for the real instance. *)
+From Coq Require Import ZArith List Reals Permutation.
+From LibaV Require Import C08.NumOps C08.FactorDefs C08.Instances C08.Base C08.PermProofs C08.DetProofs
+  C08.PluSteps C08.PluProofs C08.SolveProofs C08.PluTheorems C08.LdlLltProofs C08.LdlLltTheorems
+  C08.InvProofs C08.DetTheorems C08.Examples.
 Local Open Scope R_scope.
 
-Theorem plu_det_is_sign_times_diagonal : forall tiny n A sign,
-  length A = (n * n)%nat ->
-  plu_det (R_ops tiny) n A sign = Some (IZR sign * rprod (fun i => mg n A i i) n).
-Proof. exact plu_det_spec. Qed.
-Print Assumptions plu_det_is_sign_times_diagonal.
+(* ===================================================================================== PLU *)
+
+(* a_real_plu always terminates inside its buffers with A_SUCCESS or A_FAILURE *)
+Theorem plu_total : forall tiny, 0 < tiny -> forall n (A : list R), length A = (n * n)%nat ->
+  forall p0 : list nat, length p0 = n ->
+  exists rc st, plu (R_ops tiny) n A p0 = Some (rc, st) /\ (rc = 0%nat \/ rc = 1%nat) /\
+                length (pA st) = (n * n)%nat /\ length (pp st) = n.
+Proof. exact C08.PluTheorems.plu_total. Qed.
+Print Assumptions plu_total.
+
+(* success => p is a true permutation, sign is its parity, multipliers bounded by one, pivots >= tiny *)
+Theorem plu_shape : forall tiny, 0 < tiny -> forall n (A : list R), length A = (n * n)%nat ->
+  forall p0 : list nat, length p0 = n ->
+  forall st, plu (R_ops tiny) n A p0 = Some (0%nat, st) ->
+  Permutation (pp st) (seq 0 n) /\ psign st = perm_sign (pp st) /\
+  (forall r c, (c < r < n)%nat -> Rabs (mg n (pA st) r c) <= 1) /\
+  (forall i, (i < n)%nat -> tiny <= Rabs (mg n (pA st) i i)).
+Proof. exact C08.PluTheorems.plu_shape. Qed.
+Print Assumptions plu_shape.
+
+(* success => P A = L U, with P, L, U as produced by a_real_plu_P / _L / _U *)
+Theorem plu_reconstruct_partial : forall tiny, 0 < tiny -> forall n (A : list R), length A = (n * n)%nat ->
+  forall p0 : list nat, length p0 = n ->
+  forall st (P0 L0 U0 : list R),
+  length P0 = (n * n)%nat -> length L0 = (n * n)%nat -> length U0 = (n * n)%nat ->
+  plu (R_ops tiny) n A p0 = Some (0%nat, st) ->
+  exists P L U,
+    plu_P (R_ops tiny) n (pp st) P0 = Some P /\ plu_L (R_ops tiny) n (pA st) L0 = Some L /\
+    plu_U (R_ops tiny) n (pA st) U0 = Some U /\
+    forall r c, (r < n)%nat -> (c < n)%nat -> mmul n (mg n P) (mg n A) r c = mmul n (mg n L) (mg n U) r c.
+Proof. exact C08.PluTheorems.plu_reconstruct. Qed.
+Print Assumptions plu_reconstruct_partial.
+
+(* success => a_real_plu_solve returns x with A x = b, for every right-hand side *)
+Theorem plu_solve_partial : forall tiny, 0 < tiny -> forall n (A : list R), length A = (n * n)%nat ->
+  forall p0 : list nat, length p0 = n ->
+  forall st (b x0 : list R), plu (R_ops tiny) n A p0 = Some (0%nat, st) -> length b = n -> length x0 = n ->
+  exists x, plu_solve (R_ops tiny) n (pA st) (pp st) b x0 = Some x /\ length x = n /\
+    forall r, (r < n)%nat -> rsum (fun c => mg n A r c * nth c x 0) n = nth r b 0.
+Proof. exact C08.PluTheorems.plu_solve_correct. Qed.
+Print Assumptions plu_solve_partial.
+
+(* success => a_real_plu_inv and the strided in-place a_real_plu_inv_ return X with A X = I *)
+Theorem plu_inv_partial : forall tiny, 0 < tiny -> forall n (A : list R), length A = (n * n)%nat ->
+  forall p0 : list nat, length p0 = n ->
+  forall st, plu (R_ops tiny) n A p0 = Some (0%nat, st) ->
+  forall b0 X0 : list R, length b0 = n -> length X0 = (n * n)%nat ->
+  exists b X, plu_inv (R_ops tiny) n (pA st) (pp st) b0 X0 = Some (b, X) /\ length X = (n * n)%nat /\
+    forall r c, (r < n)%nat -> (c < n)%nat -> rsum (fun j => mg n A r j * mg n X j c) n = delta r c.
+Proof. exact C08.InvProofs.plu_inv_correct. Qed.
+Print Assumptions plu_inv_partial.
+
+Theorem plu_inv_strided_partial : forall tiny, 0 < tiny -> forall n (A : list R), length A = (n * n)%nat ->
+  forall p0 : list nat, length p0 = n ->
+  forall st, plu (R_ops tiny) n A p0 = Some (0%nat, st) ->
+  forall X0 : list R, length X0 = (n * n)%nat ->
+  exists X, plu_inv_ (R_ops tiny) n (pA st) (pp st) X0 = Some X /\ length X = (n * n)%nat /\
+    forall r c, (r < n)%nat -> (c < n)%nat -> rsum (fun j => mg n A r j * mg n X j c) n = delta r c.
+Proof. exact C08.InvProofs.plu_inv__correct. Qed.
+Print Assumptions plu_inv_strided_partial.
+
+(* det = sign * prod u_ii <> 0, lndet = ln |det|, sgndet = sgn det *)
+Theorem plu_det_lndet_sgndet_agree : forall tiny, 0 < tiny -> forall n (A : list R), length A = (n * n)%nat ->
+  forall (p0 : list nat) st, length p0 = n -> plu (R_ops tiny) n A p0 = Some (0%nat, st) ->
+  exists d, plu_det (R_ops tiny) n (pA st) (psign st) = Some d /\
+            d = IZR (psign st) * rprod (fun i => mg n (pA st) i i) n /\ d <> 0 /\
+            plu_lndet (R_ops tiny) n (pA st) = Some (Rpower.ln (Rabs d)) /\
+            plu_sgndet (R_ops tiny) n (pA st) (psign st) = Some (sgnZ d).
+Proof. exact C08.DetTheorems.plu_det_family. Qed.
+Print Assumptions plu_det_lndet_sgndet_agree.
+
+(* exactly singular inputs are reported as failure: a zero column ... *)
+Theorem plu_zero_column_fails : forall tiny, 0 < tiny -> forall n (A : list R), length A = (n * n)%nat ->
+  forall p0 : list nat, length p0 = n ->
+  forall c rc st, (c < n)%nat -> (forall r, (r < n)%nat -> mg n A r c = 0) ->
+  plu (R_ops tiny) n A p0 = Some (rc, st) -> rc = 1%nat.
+Proof. exact C08.PluTheorems.plu_zero_column_fails. Qed.
+Print Assumptions plu_zero_column_fails.
+
+(* ... duplicated rows ... *)
+Theorem plu_duplicate_rows_fail : forall tiny, 0 < tiny -> forall n (A : list R), length A = (n * n)%nat ->
+  forall p0 : list nat, length p0 = n ->
+  forall r1 r2 rc st, (r1 < n)%nat -> (r2 < n)%nat -> r1 <> r2 ->
+  (forall c, (c < n)%nat -> mg n A r1 c = mg n A r2 c) ->
+  plu (R_ops tiny) n A p0 = Some (rc, st) -> rc = 1%nat.
+Proof. exact C08.PluTheorems.plu_duplicate_rows_fail. Qed.
+Print Assumptions plu_duplicate_rows_fail.
+
+(* ... and failure is only ever reported when, at some step j, the whole pivot column of the
+   correctly reduced matrix (the invariant PInv holds for the j steps done) is below the threshold *)
+Theorem plu_failure_means_vanishing_pivot_column : forall tiny, 0 < tiny -> forall n (A : list R),
+  length A = (n * n)%nat -> forall p0 : list nat, length p0 = n ->
+  forall st, plu (R_ops tiny) n A p0 = Some (1%nat, st) ->
+  exists j, (j < n)%nat /\ PInv tiny n (mg n A) j st /\
+            forall r, (j <= r < n)%nat -> Rabs (mg n (pA st) r j) < tiny.
+Proof. exact C08.PluTheorems.plu_failure_inv. Qed.
+Print Assumptions plu_failure_means_vanishing_pivot_column.
+
+(* ===================================================================================== LDL *)
+
+Theorem ldl_total : forall tiny, 0 < tiny -> forall n (A : list R), length A = (n * n)%nat ->
+  exists rc M, ldl (R_ops tiny) n A = Some (rc, M) /\ (rc = 0%nat \/ rc = 1%nat) /\ length M = (n * n)%nat.
+Proof. exact C08.LdlLltTheorems.ldl_total. Qed.
+Print Assumptions ldl_total.
+
+(* success => A = L D L^T on the triangle the code reads; every pivot d_c is the quantity the
+   recurrence defines from the columns before it and is bounded away from zero: a vanishing
+   pivot never yields factors *)
+Theorem ldl_reconstruct_partial : forall tiny, 0 < tiny -> forall n (A : list R), length A = (n * n)%nat ->
+  forall M, ldl (R_ops tiny) n A = Some (0%nat, M) ->
+  (forall r c, (c <= r)%nat -> (r < n)%nat ->
+     mg n A r c = rsum (fun i => Lf (mg n M) r i * mg n M i i * Lf (mg n M) c i) n) /\
+  (forall c, (c < n)%nat -> tiny <= Rabs (mg n M c c) /\
+                            mg n M c c = mg n A c c - ldl_dot (mg n M) c c).
+Proof. exact C08.LdlLltTheorems.ldl_reconstruct. Qed.
+Print Assumptions ldl_reconstruct_partial.
+
+Theorem ldl_solve_partial : forall tiny, 0 < tiny -> forall n (A : list R), length A = (n * n)%nat ->
+  forall M b, ldl (R_ops tiny) n A = Some (0%nat, M) -> length b = n ->
+  exists x, ldl_solve (R_ops tiny) n M b = Some x /\ length x = n /\
+    forall r, (r < n)%nat -> rsum (fun c => symc (mg n A) r c * nth c x 0) n = nth r b 0.
+Proof. exact C08.LdlLltTheorems.ldl_solve_correct. Qed.
+Print Assumptions ldl_solve_partial.
+
+Theorem ldl_inv_partial : forall tiny, 0 < tiny -> forall n (A : list R), length A = (n * n)%nat ->
+  forall M, ldl (R_ops tiny) n A = Some (0%nat, M) ->
+  forall b0 X0 : list R, length b0 = n -> length X0 = (n * n)%nat ->
+  exists b X, ldl_inv (R_ops tiny) n M b0 X0 = Some (b, X) /\ length X = (n * n)%nat /\
+    forall r c, (r < n)%nat -> (c < n)%nat -> rsum (fun j => symc (mg n A) r j * mg n X j c) n = delta r c.
+Proof. exact C08.InvProofs.ldl_inv_correct. Qed.
+Print Assumptions ldl_inv_partial.
+
+Theorem ldl_inv_strided_partial : forall tiny, 0 < tiny -> forall n (A : list R), length A = (n * n)%nat ->
+  forall M, ldl (R_ops tiny) n A = Some (0%nat, M) ->
+  forall X0 : list R, length X0 = (n * n)%nat ->
+  exists X, ldl_inv_ (R_ops tiny) n M X0 = Some X /\ length X = (n * n)%nat /\
+    forall r c, (r < n)%nat -> (c < n)%nat -> rsum (fun j => symc (mg n A) r j * mg n X j c) n = delta r c.
+Proof. exact C08.InvProofs.ldl_inv__correct. Qed.
+Print Assumptions ldl_inv_strided_partial.
+
+Theorem ldl_det_lndet_sgndet_agree : forall tiny, 0 < tiny -> forall n (A : list R), length A = (n * n)%nat ->
+  forall M, ldl (R_ops tiny) n A = Some (0%nat, M) ->
+  exists d, ldl_det (R_ops tiny) n M = Some d /\ d = rprod (fun i => mg n M i i) n /\ d <> 0 /\
+            ldl_lndet (R_ops tiny) n M = Some (Rpower.ln (Rabs d)) /\
+            ldl_sgndet (R_ops tiny) n M = Some (sgnZ d).
+Proof. exact C08.DetTheorems.ldl_det_family. Qed.
+Print Assumptions ldl_det_lndet_sgndet_agree.
+
+(* an exactly singular symmetric input is reported as failure *)
+Theorem ldl_singular_fails : forall tiny, 0 < tiny -> forall n (A : list R), length A = (n * n)%nat ->
+  forall (x : nat -> R) i rc M, (i < n)%nat -> x i <> 0 ->
+  (forall r, (r < n)%nat -> rsum (fun c => symc (mg n A) r c * x c) n = 0) ->
+  ldl (R_ops tiny) n A = Some (rc, M) -> rc = 1%nat.
+Proof. exact C08.LdlLltTheorems.ldl_singular_fails. Qed.
+Print Assumptions ldl_singular_fails.
+
+(* failure is only reported when a pivot, computed from correctly factored columns, is below tiny *)
+Theorem ldl_failure_means_vanishing_pivot : forall tiny, 0 < tiny -> forall n (A : list R),
+  length A = (n * n)%nat -> forall M, ldl (R_ops tiny) n A = Some (1%nat, M) ->
+  exists c M0, (c < n)%nat /\ LdlInv tiny n (mg n A) c M0 /\
+               Rabs (mg n A c c - ldl_dot (mg n M0) c c) < tiny.
+Proof. exact C08.LdlLltTheorems.ldl_failure_inv. Qed.
+Print Assumptions ldl_failure_means_vanishing_pivot.
+
+(* ===================================================================================== LLT *)
+
+Theorem llt_total : forall tiny, 0 < tiny -> forall n (A : list R), length A = (n * n)%nat ->
+  exists rc M, llt (R_ops tiny) n A = Some (rc, M) /\ (rc = 0%nat \/ rc = 1%nat) /\ length M = (n * n)%nat.
+Proof. exact C08.LdlLltTheorems.llt_total. Qed.
+Print Assumptions llt_total.
+
+(* success => A = L L^T on the triangle the code reads, strictly positive diagonal, and every
+   Cholesky pivot a_rr - sum_{i<r} l_ri^2 is >= tiny: a non-positive pivot never yields factors *)
+Theorem llt_reconstruct_partial : forall tiny, 0 < tiny -> forall n (A : list R), length A = (n * n)%nat ->
+  forall M, llt (R_ops tiny) n A = Some (0%nat, M) ->
+  (forall r c, (c <= r)%nat -> (r < n)%nat ->
+     mg n A r c = rsum (fun i => Ltf (mg n M) r i * Ltf (mg n M) c i) n) /\
+  (forall r, (r < n)%nat ->
+     0 < mg n M r r /\
+     tiny <= mg n A r r - rsum (fun i => mg n M r i * mg n M r i) r /\
+     mg n M r r * mg n M r r = mg n A r r - rsum (fun i => mg n M r i * mg n M r i) r).
+Proof. exact C08.LdlLltTheorems.llt_reconstruct. Qed.
+Print Assumptions llt_reconstruct_partial.
+
+Theorem llt_solve_partial : forall tiny, 0 < tiny -> forall n (A : list R), length A = (n * n)%nat ->
+  forall M b, llt (R_ops tiny) n A = Some (0%nat, M) -> length b = n ->
+  exists x, llt_solve (R_ops tiny) n M b = Some x /\ length x = n /\
+    forall r, (r < n)%nat -> rsum (fun c => symc (mg n A) r c * nth c x 0) n = nth r b 0.
+Proof. exact C08.LdlLltTheorems.llt_solve_correct. Qed.
+Print Assumptions llt_solve_partial.
+
+Theorem llt_inv_partial : forall tiny, 0 < tiny -> forall n (A : list R), length A = (n * n)%nat ->
+  forall M, llt (R_ops tiny) n A = Some (0%nat, M) ->
+  forall b0 X0 : list R, length b0 = n -> length X0 = (n * n)%nat ->
+  exists b X, llt_inv (R_ops tiny) n M b0 X0 = Some (b, X) /\ length X = (n * n)%nat /\
+    forall r c, (r < n)%nat -> (c < n)%nat -> rsum (fun j => symc (mg n A) r j * mg n X j c) n = delta r c.
+Proof. exact C08.InvProofs.llt_inv_correct. Qed.
+Print Assumptions llt_inv_partial.
+
+Theorem llt_inv_strided_partial : forall tiny, 0 < tiny -> forall n (A : list R), length A = (n * n)%nat ->
+  forall M, llt (R_ops tiny) n A = Some (0%nat, M) ->
+  forall X0 : list R, length X0 = (n * n)%nat ->
+  exists X, llt_inv_ (R_ops tiny) n M X0 = Some X /\ length X = (n * n)%nat /\
+    forall r c, (r < n)%nat -> (c < n)%nat -> rsum (fun j => symc (mg n A) r j * mg n X j c) n = delta r c.
+Proof. exact C08.InvProofs.llt_inv__correct. Qed.
+Print Assumptions llt_inv_strided_partial.
+
+Theorem llt_det_lndet_agree : forall tiny, 0 < tiny -> forall n (A : list R), length A = (n * n)%nat ->
+  forall M, llt (R_ops tiny) n A = Some (0%nat, M) ->
+  exists d, llt_det (R_ops tiny) n M = Some d /\ d = (rprod (fun i => mg n M i i) n) ^ 2 /\ 0 < d /\
+            llt_lndet (R_ops tiny) n M = Some (Rpower.ln d).
+Proof. exact C08.DetTheorems.llt_det_family. Qed.
+Print Assumptions llt_det_lndet_agree.
+
+(* inputs that are not positive (semi)definite are reported as failure: a negative value of the
+   quadratic form, or a diagonal entry below the threshold (in particular <= 0) *)
+Theorem llt_indefinite_fails : forall tiny, 0 < tiny -> forall n (A : list R), length A = (n * n)%nat ->
+  forall (x : nat -> R) rc M,
+  rsum (fun r => x r * rsum (fun c => symc (mg n A) r c * x c) n) n < 0 ->
+  llt (R_ops tiny) n A = Some (rc, M) -> rc = 1%nat.
+Proof. exact C08.LdlLltTheorems.llt_indefinite_fails. Qed.
+Print Assumptions llt_indefinite_fails.
+
+Theorem llt_small_diagonal_fails : forall tiny, 0 < tiny -> forall n (A : list R), length A = (n * n)%nat ->
+  forall r rc M, (r < n)%nat -> mg n A r r < tiny ->
+  llt (R_ops tiny) n A = Some (rc, M) -> rc = 1%nat.
+Proof. exact C08.LdlLltTheorems.llt_small_diagonal_fails. Qed.
+Print Assumptions llt_small_diagonal_fails.
+
+(* failure is only reported when the pivot of some row, computed from correctly factored rows, is < tiny *)
+Theorem llt_failure_means_small_pivot : forall tiny, 0 < tiny -> forall n (A : list R),
+  length A = (n * n)%nat -> forall M, llt (R_ops tiny) n A = Some (1%nat, M) ->
+  exists r M0 M1, (r < n)%nat /\ LltInv tiny n (mg n A) r M0 /\
+    (forall c, (c < r)%nat -> mg n A r c = rsum (fun i => mg n M1 r i * mg n M0 c i) (S c)) /\
+    llt_pivot n (mg n A) M1 r < tiny.
+Proof. exact C08.LdlLltTheorems.llt_failure_inv. Qed.
+Print Assumptions llt_failure_means_small_pivot.
+
+(* ============================================================================ non-vacuity *)
+(* The hypotheses "... = Some (0, st)" / "... = Some (1, st)" are satisfiable: C08/Examples.v
+   evaluates the real instance on a 2x2 input that needs a row exchange (plu_2x2_swap), on
+   symmetric 2x2 inputs (ldl_2x2, llt_2x2) and on failing inputs (plu_2x2_duplicate_rows_fails,
+   ldl_2x2_zero_pivot_fails, llt_1x1_nonpositive_fails). *)
